@@ -76,6 +76,7 @@ def run_faults(pid, tier, seed):
     evals = 0
     ops_total = {}
     xdirs = []
+    samples = []
 
     def bad(prop, what, ctx, **kw):
         if pid not in prop.split(","):
@@ -149,6 +150,8 @@ def run_faults(pid, tier, seed):
                                                                                          "" if tmp_same_fs else " [temporary directory on another filesystem]"), "style": "structured" if structured else "unstructured",
                                "files": {r: (t if len(t) < 2000 else t[:300] + "... (%d bytes)" % len(t)) for r, t in files.items()}, "exit": rc}
                         snap1 = e2e.snapshot(proj)
+                        if len(samples) < 3 and k > 3:
+                            samples.append({"fault": ctx["fault"], "exit": rc})
                         killed = kind.startswith("kill")
                         updated, ids = 0, []
                         for rel, t in files.items():
@@ -203,5 +206,5 @@ def run_faults(pid, tier, seed):
     res.update({"evaluations": evals, "distinct_nontrivial": evals, "exhaustive": tier == "thorough",
                 "rule": "3 source files (47 B, ~300 B, ~150 KB) x every %sintercepted filesystem operation of an edit run (%s operations) x {killed before, killed after, EIO, ENOSPC, EXDEV, EACCES}" %
                         ("" if tier == "thorough" else "n-th (stride chosen to give about 14 points) ", ops_total),
-                "samples": [], "wall_s": round(time.time() - t0, 1)})
+                "samples": samples, "wall_s": round(time.time() - t0, 1)})
     return res
